@@ -216,7 +216,13 @@ pub fn run_scene<F: Function + MathFunction + RenderHints + Clone>(
                     })
                     .collect();
                 // the row-parallel post-processing passes, with the same pool
+                // (not on images without pixels: `apply_effect` chunks rows
+                // by the width and panics for width 0, pool or no pool -
+                // outside what this property states)
                 use fidget_raster::effects;
+                if sc.w == 0 || sc.h == 0 {
+                    return out;
+                }
                 for bmp in [
                     effects::to_rgba_bitmap(img.clone(), false, threads),
                     effects::to_rgba_bitmap(img.clone(), true, threads),
@@ -249,6 +255,9 @@ pub fn run_scene<F: Function + MathFunction + RenderHints + Clone>(
                 // deterministic passes are compared; blur_ssao gets a
                 // deterministic occlusion image made from the depths)
                 use fidget_raster::effects;
+                if sc.w == 0 || sc.h == 0 {
+                    return out;
+                }
                 let den = effects::denoise_normals(&img, threads);
                 out.push(0xEFFEC7);
                 out.extend(den.iter().flat_map(px));
@@ -659,6 +668,39 @@ impl Prop for C09 {
         st.sample(|| scene_json(&sc));
         if let Some((sig, msg, detail)) = check_scene(&sc, rng, st, false) {
             st.violation(case, sig, msg, detail);
+            return;
+        }
+        // an image without pixels is still a render whose token is never
+        // set: it returns an (empty) result with or without a pool
+        if sc.kind != Kind::Mesh && rng.chance(0.25) {
+            let mut e = Scene { kind: sc.kind, prog: sc.prog.clone(), w: sc.w, h: sc.h, d: sc.d, tiles: sc.tiles.clone(), depth: sc.depth, jit: sc.jit };
+            match rng.below(3) {
+                0 => e.w = 0,
+                1 => e.h = 0,
+                _ => {
+                    e.w = 0;
+                    e.h = 0;
+                }
+            }
+            let b = e.prog.build();
+            let root = built_root(&e.prog, &b);
+            let kname = format!("{:?}", e.kind).to_lowercase();
+            for pool_idx in [None, Some(rng.below(POOL_SIZES.len())), Some(rng.below(POOL_SIZES.len()))] {
+                child::note(&format!("C09 {kname} empty image | pool {pool_idx:?}"));
+                st.inc("empty_image_runs");
+                match guarded(|| run_scene_dyn(&b.ctx, root, &e, pool_idx, CancelToken::new())) {
+                    Ok(Some(_)) => {}
+                    Ok(None) => {
+                        st.violation(case, format!("{kname}:none_without_cancel:empty_image"),
+                            format!("a {}x{} render whose token was never set returned no result (pool {:?})", e.w, e.h, pool_idx.map(|i| POOL_SIZES[i])), scene_json(&e));
+                        return;
+                    }
+                    Err(pi) => {
+                        st.violation(case, format!("panic:{}", pi.site()), format!("empty image: {}", pi.msg), scene_json(&e));
+                        return;
+                    }
+                }
+            }
         }
     }
     fn extra_stage(&self, st: &mut Stats, tier: Tier, seed: u64) {
